@@ -15,8 +15,8 @@ both are DISCHARGED for the commands the other units regenerate.  Reading guide:
   does.  (They ARE translated by now -- unit `asmc`: `Gen/MonAsmGen.lean`, `Proofs/MonAsmGenEq.lean`, property
   theorems `Props/C20a.lean`, e.g. `assemble_rejected_unchanged`, `display_commands_pure` -- but on that unit's own
   state type `AsmSt`; the adapter `AsmSt <-> CmdSt` that would instantiate `P.unt` / `P.asm` with the generated
-  methods and so discharge `UntModels` / `AsmHonest` has not been written.  Until then both stay hypotheses, and
-  for these five commands `rejected_unchanged_composed` says only what C20a says separately.)
+  methods and so discharge `UntModels` / `AsmHonest` is written in `Model/MonCompose2Rt.lean`: `Props/C20i.lean` instantiates and
+  PROVES both hypotheses for the generated commands; in THIS file they stay hypotheses.)
 * `othG P` is the parameter `oth` of the generated dispatcher built from the GENERATED `do_fill do_load do_save
   do_mem` (MonMemGen, calling the generated `_fill`), `do_step do_goto do_return do_add_breakpoint
   do_delete_breakpoint do_show_breakpoints` (MonRunGen), `do_cycles do_tilde do_disassemble` (MonShowGen),
